@@ -347,6 +347,11 @@ class Effects:
         if isinstance(e, ast.BinOp):
             out.extend(self.expr(e.left, fi, st))
             out.extend(self.expr(e.right, fi, st))
+            if isinstance(e.op, ast.Mod) and isinstance(e.left, ast.Constant) and isinstance(e.left.value, (str, bytes)) \
+                    and not isinstance(e.right, (ast.Tuple, ast.Dict)) and self._loaded_object(e.right, fi) \
+                    and not any(f.startswith(f"type({unparse(e.right)}) is ") and not f.endswith(" is tuple") for f in st.facts):
+                # `"...%r" % x` with x an arbitrary loaded object: a tuple x is taken as the argument *list*
+                out.append(self.esc("TypeError", True, fi, e, "format"))
             if isinstance(e.op, ast.Mult):
                 # sequence repetition sized by data: allocation site
                 for seq, n in ((e.left, e.right), (e.right, e.left)):
@@ -406,6 +411,23 @@ class Effects:
         if isinstance(e, ast.NamedExpr):
             return self.expr(e.value, fi, st)
         raise AnalysisError(f"effects: expression kind {type(e).__name__} not modelled at {fi.module.rel}:{getattr(e, 'lineno', 0)}")
+
+    def _loaded_object(self, x: ast.AST, fi: FuncInfo, depth: int = 0) -> bool:
+        """x is an element of the loader stack: an object of any serialisable type, tuples included"""
+        if isinstance(x, ast.Name) and depth < 4:
+            al = self.repo.local_alias(x.id, fi)
+            return al is not None and self._loaded_object(al, fi, depth + 1)
+        base = None
+        if isinstance(x, ast.Call) and isinstance(x.func, ast.Attribute) and x.func.attr == "pop":
+            base = x.func.value
+        elif isinstance(x, ast.Subscript) and not isinstance(x.slice, ast.Slice):
+            base = x.value
+        if base is None:
+            return False
+        if isinstance(base, ast.Name):
+            al = self.repo.local_alias(base.id, fi)
+            base = al if al is not None else base
+        return unparse(base) == "self.stack"
 
     def _bounded(self, n: ast.AST, fi: FuncInfo, st: State) -> bool:
         if isinstance(n, ast.Constant):
